@@ -61,6 +61,10 @@ func newVC(prog *Prog, fn *ssa.Function, fc *FuncContract, reg *KeyRegistry, dis
 	if fc != nil && (fc.Flags["safe"] || fc.Flags["nopanic"]) {
 		vc.safe = true
 	}
+	if fc != nil && fc.Flags["nooverflow"] {
+		vc.safe = true
+		vc.nooverflow = true
+	}
 	return vc
 }
 
